@@ -623,6 +623,21 @@ pub fn run(env: &Env, replay: Option<&Path>) -> i32 {
                     flips.push(FlipCase { n: 1024, seed: seed_hex(s), bit });
                 }
             }
+            // boundary seeds (all-zero, all-0xFF) of both variants: bits 0, 8 and 9 of each of the
+            // eight 32-bit words - a seed that is offset, folded or clamped word-wise before it is
+            // expanded loses bits exactly there
+            for n in [512usize, 1024] {
+                for fill in [0u8, 0xFF] {
+                    for w in 0..8 {
+                        if n == 1024 && w != 0 && w != 7 {
+                            continue; // Falcon-1024 (five times the cost): first and last word only
+                        }
+                        for b in [0usize, 8, 9] {
+                            flips.push(FlipCase { n, seed: seed_hex(&[fill; 32]), bit: 32 * w + b });
+                        }
+                    }
+                }
+            }
             // interleave so that the expensive 1024 cases are spread over the workers
             flips.sort_by_key(|f| mix(f.bit as u64 * 7 + f.n as u64));
             drive_enumerated(env, &BitFlip, flips.into_iter(), &mut report);
